@@ -20,14 +20,14 @@ for d in $SRC/mutants/*/; do
   # run our check on /repo with the patch
   git -C /repo apply $out/patch.diff; ap2=$?
   (cd /verif && timeout 1500 ./check $PROP quick > $out/check_output.txt 2>&1); rc=$?
-  git -C /repo checkout -- . 
+  git -C /repo apply -R $out/patch.diff 
   nviol=$(grep -c '^VIOLATION' $out/check_output.txt)
   first=$(grep -m3 '^VIOLATION' $out/check_output.txt | sed 's/.*obligation=//' | tr '\n' ';')
   python3 - <<PY
 import json
 json.dump({"property":"$PROP","mutant":"$i","demo_passes_on_clean_tree":$clean==0,"patch_applies":$applied==0,"demo_fails_with_patch":$mut!=0,"existing_suite_passes_with_patch":$suite==0,
  "check_cmd":"./check $PROP quick","check_exit_code":$rc,"violations_reported":$nviol,"first_violations":"$first",
- "what_i_ran":"scratch worktree of /repo HEAD: demo without patch, git apply patch.diff, demo with patch, go test ./geom ./rtree ./carto with patch; then git -C /repo apply, ./check $PROP quick, git -C /repo checkout -- ."},open("$out/meta.json","w"),indent=1)
+ "what_i_ran":"scratch worktree of /repo HEAD: demo without patch, git apply patch.diff, demo with patch, go test ./geom ./rtree ./carto with patch; then git -C /repo apply, ./check $PROP quick, git -C /repo apply -R $out/patch.diff"},open("$out/meta.json","w"),indent=1)
 PY
   echo "$PROP-$i clean=$clean applied=$applied demo_with_patch=$mut suite=$suite check_rc=$rc violations=$nviol $first"
 done
